@@ -120,6 +120,12 @@ def _winit(modname, suitename):
     _W["suite"] = s
     signal.signal(signal.SIGALRM, _alarm)
     if mp.current_process().name != "MainProcess":
+        # die with the parent: a worker stuck in a busy loop of a changed implementation must not survive a killed check
+        try:
+            import ctypes
+            ctypes.CDLL("libc.so.6").prctl(1, signal.SIGKILL)   # PR_SET_PDEATHSIG
+        except Exception:
+            pass
         # a changed implementation may compute something enormous ('ab' * 10**10, 2 ** 10**9): let the worker get a
         # MemoryError (reported as a case that could not be run) instead of exhausting the machine
         try:
@@ -415,6 +421,16 @@ def run_check(mod, tier, seed, replay=None):
     t0 = time.time()
     pid = mod.ID
     modname = mod.__name__
+    # the oracles and printers run in this process; a generated case whose REFERENCE value is enormous (a template such as
+    # 'ab' * 10**10 computed by the oracle's own Python evaluation) must raise MemoryError here instead of getting the whole
+    # check killed by the kernel's OOM killer (seen once: C16 thorough, seed 13, 61 GB). Workers have their own lower limit.
+    try:
+        import resource
+        lim = int(os.environ.get("VERIF_MAIN_MEM_GB", "20")) << 30
+        resource.setrlimit(resource.RLIMIT_AS, (lim, lim))
+    except Exception:
+        pass
+    mem_skips = 0
     known = [k for k in load_known() if k.get("property") == pid and k.get("status") == "known"]
     known_sigs = {k["sig"]: k for k in known}
     lines = []
@@ -488,11 +504,20 @@ def run_check(mod, tier, seed, replay=None):
             d = suite.describe(c)
             if d:
                 hist[d] = hist.get(d, 0) + 1
-            for f in suite.oracle(c, o):
+            try:
+                fs = suite.oracle(c, o)
+            except MemoryError:
+                # the oracle's own reference computation does not fit in memory: no verdict on this case (counted)
+                fs = []
+                mem_skips += 1
+            for f in fs:
                 oracle_failures.append((suite, c, o, f))
             if suite.coq_case and pr["model_ok"]:
                 try:
                     t = suite.coq_case(c, o)
+                except MemoryError:
+                    t = None
+                    mem_skips += 1
                 except Exception as e:   # a printer that cannot express the observation is a broken tie, not a crash
                     harness_errors.append((suite.name, c, {"harness_error": "coq_case: %s: %s" % (type(e).__name__, e)}))
                     t = None
@@ -611,6 +636,7 @@ def run_check(mod, tier, seed, replay=None):
             "suites": cov["suites"],
             "proof_build_s": cov.get("proof_build_s"),
             "known_findings_reproduced": known_hits,
+            "cases_without_verdict_reference_too_large": mem_skips,
             "repo": REPO,
         },
         "assumptions": getattr(mod, "ASSUMPTIONS", []),
